@@ -11,6 +11,7 @@ import FontVerif.Drv.C01HandText
 import FontVerif.Drv.C01HandAat
 import FontVerif.Drv.C01HandStack
 import FontVerif.Drv.C01HandBytecode
+import FontVerif.Drv.C01HandBlend
 
 def main : IO Unit := FontVerif.driverMain [FontVerif.Drv.C01.handle, FontVerif.Drv.C01Iter.handle, FontVerif.Drv.C01Hand.handle,
   FontVerif.Drv.C01HandGlyf.handle,
@@ -21,4 +22,5 @@ def main : IO Unit := FontVerif.driverMain [FontVerif.Drv.C01.handle, FontVerif.
   FontVerif.Drv.C01HandText.handle,
   FontVerif.Drv.C01HandAat.handle,
   FontVerif.Drv.C01HandStack.handle,
-  FontVerif.Drv.C01HandBytecode.handle]
+  FontVerif.Drv.C01HandBytecode.handle,
+  FontVerif.Drv.C01HandBlend.handle]
